@@ -197,16 +197,11 @@ def run(ctx):
             cs = [c for c in ao[0].calls() if not ao[0].is_cleanup(c.bb) and c.is_static and c.res and "xml::encode" in c.res]
             ctx.ob("R-FLOW", "Element::attr_opt:delegates", [short(c.res) for c in cs] == ["Element::attr"],
                    "attr_opt writes a present value with attr", where=ao[0].loc)
-    rb = f.body("xml::encode::TextEscape::replace_char")
-    if rb is not None:
-        paths, it, err = K.run_absint(f, rb.name)
-        cls = set()
-        for p in (paths or []):
-            if ("self is Attr", True) in p.conds and "ch" in p.zone.syms and outcome_str(p.outcome).startswith("return Some("):
-                lo, hi = p.zone.bounds("ch")
-                cls.update(range(int(lo), int(hi) + 1))
-        ctx.ob("R-CLS", "replace_char:Attr", cls == set(b"<>\"'&"), "in attribute values exactly < > \" ' & are replaced",
-               where=rb.loc, detail=absint.fmt_class(cls))
+    rep = C09.escape_table(f)
+    if rep["body"] is not None:
+        ok, det = C09.escape_class_ok(rep, "Attr", b"<>\"'&")
+        ctx.ob("R-CLS", "replace_char:Attr", ok, "in attribute values exactly < > \" ' & are replaced (each by a reference to itself)",
+               where=rep["body"].loc, detail=det)
 
     # ---- C11.c handles -------------------------------------------------------------------------
     vn = "ca::idexchange::Handle::<T>::verify_name"
